@@ -27,6 +27,15 @@ class EngineError(Exception):
     pass
 
 
+class LearnFailed(EngineError):
+    """one of the plain calls by which the addresses are observed on an empty store failed or left other files than
+    expected: reported as a violation (after native confirmation), not as an engine error"""
+
+    def __init__(self, what):
+        EngineError.__init__(self, "observation call failed: %r" % (what,))
+        self.what = what
+
+
 class Aliasing(EngineError):
     """two distinct identifiers of the universe were observed at the same address"""
     def __init__(self, text, what):
@@ -74,6 +83,9 @@ class World:
             # a cid that was never stored: the upper-case spelling of a real digest (a different identifier for the
             # store, which shards cids as supplied), or all 'f' when the digest has no letters
             up = self.real_cids[0].upper() if self.real_cids else "f" * 64
+            if fake_cid == "long":
+                # ... or a string longer than any digest (tag_object takes any identifier as cid)
+                up = (up + "0123456789abcdef" * 16)[:200]
             self.cids.append(up if up not in self.real_cids else "f" * len(up))
         self.NC = len(self.cids)
         self.fake = self.NC - 1 if fake_cid else None
@@ -86,6 +98,10 @@ class World:
         self.NF = len(self.eff)
         self.mutate = mutate
         self.extra_globals = {}
+        if threading_mod is None and multiprocessing_mod is None:
+            # sequential harnesses: a wait() that nobody can end raises WouldBlock instead of hanging the check
+            from . import seqsync
+            threading_mod, multiprocessing_mod = seqsync.SEQ_THREADING, seqsync.SEQ_MULTIPROCESSING
         if threading_mod is not None:
             self.extra_globals["threading"] = threading_mod
         if multiprocessing_mod is not None:
@@ -107,6 +123,7 @@ class World:
     def _fresh_model_fs(self):
         F = symfs.FS(symfs.ModelBackend(), blksize=self.blksize)
         F.b.dirs["/src"] = True
+        F.b.dirs["/tmp"] = True          # the system's temp directory (possibly another file system)
         for k, c in enumerate(self.contents):
             F.b.create("/src/c%d" % k, c)
         for v, d in enumerate(self.docs):
@@ -120,6 +137,16 @@ class World:
         self.shim.install(self.M, self.extra_globals)
         self.X = {n: getattr(self.M, n) for n in dir(self.M)
                   if isinstance(getattr(self.M, n), type) and issubclass(getattr(self.M, n), Exception)}
+        # a write to an attribute of the store instance is a scheduling point for the cooperative scheduler (real
+        # threads may be preempted between any two of them); no effect outside scheduled threads
+        from . import sched as _sched
+
+        def _setattr(obj, k, v, _orig=object.__setattr__):
+            _orig(obj, k, v)
+            sc = _sched.CUR[0]
+            if sc is not None and sc.me() is not None and not sc.me().kill:
+                sc.point("setattr", k)
+        self.M.FileHashStore.__setattr__ = _setattr
         F0 = self._fresh_model_fs()
         self.shim.fs = F0
         S0 = self.M.FileHashStore(self.props("/s"))
@@ -136,44 +163,53 @@ class World:
             self.shim.fs = F
             return F, self.instance()
 
+        def observe(api, args, fn):
+            try:
+                return fn()
+            except symfs.Crash:
+                raise
+            except Exception as e:   # noqa
+                raise LearnFailed(dict(api=api, args=args, outcome="%s: %s" % (type(e).__name__, str(e)[:160])))
+
         for k in range(self.NK):
             F, s = trial()
-            om = s.store_object(None, "/src/c%d" % k)
+            om = observe("store_object", [None, k], lambda: s.store_object(None, "/src/c%d" % k))
             if om.cid != self.real_cids[k]:
-                raise EngineError("learned cid differs from hashlib digest (C01 territory): %s" % om.cid)
+                raise LearnFailed(dict(api="store_object", args=[None, k], outcome="cid is not the digest: %s" % om.cid))
             new = [p for p in F.b.snapshot("/s") if p not in base]
             if len(new) != 1:
-                raise EngineError("store_object(data) created %r" % new)
+                raise LearnFailed(dict(api="store_object", args=[None, k], outcome="created %d files" % len(new)))
             self.OBJ[k] = new[0]
         for i, p in enumerate(self.pids):
             F, s = trial()
             j = 0
-            s.tag_object(p, self.cids[j])
+            observe("tag_object", [p, self.cids[j]], lambda: s.tag_object(p, self.cids[j]))
             snap = F.b.snapshot("/s")
             new = [q for q in snap if q not in base]
             pr = [q for q in new if snap[q] == self.cids[j].encode()]
             cr = [q for q in new if snap[q] == (p + "\n").encode()]
             if len(new) != 2 or len(pr) != 1 or len(cr) != 1:
-                raise EngineError("tag_object created %r" % new)
+                raise LearnFailed(dict(api="tag_object", args=[p, self.cids[j]], outcome="created %d files" % len(new)))
             self.PIDREF[i] = pr[0]
             if self.CIDREF[j] is None:
                 self.CIDREF[j] = cr[0]
         for j in range(1, self.NC):
             F, s = trial()
-            s.tag_object(self.pids[0], self.cids[j])
+            observe("tag_object", [self.pids[0], self.cids[j]], lambda: s.tag_object(self.pids[0], self.cids[j]))
             snap = F.b.snapshot("/s")
             cr = [q for q in snap if q not in base and q != self.PIDREF[0]]
             if len(cr) != 1:
-                raise EngineError("tag_object created %r" % cr)
+                raise LearnFailed(dict(api="tag_object", args=[self.pids[0], self.cids[j]],
+                                       outcome="created %d files" % (len(cr) + 1)))
             self.CIDREF[j] = cr[0]
         for i, p in enumerate(self.pids):
             for fi, e in enumerate(self.eff):
                 F, s = trial()
                 arg = None if e == self.ns and None in self.formats else e
-                ret = s.store_metadata(p, "/src/d0", arg)
+                ret = observe("store_metadata", [p, arg], lambda: s.store_metadata(p, "/src/d0", arg))
                 new = [q for q in F.b.snapshot("/s") if q not in base]
                 if len(new) != 1:
-                    raise EngineError("store_metadata created %r" % new)
+                    raise LearnFailed(dict(api="store_metadata", args=[p, arg], outcome="created %d files" % len(new)))
                 self.META[i][fi] = new[0]
         allp = self.PIDREF + self.CIDREF + [o for o in self.OBJ if o] + [m for r in self.META for m in r]
         if len(set(allp)) != len(allp):
@@ -206,8 +242,12 @@ class World:
         self.dirv = {d: B("dir_%d" % n) for n, d in enumerate(sorted(self.chains))}
         # the environment: does the file system under the store support hard links? (decided when os.link is called)
         self.linkv = B("fs_hard_links")
+        # ... are the store's sub-trees, the temp directory and the caller's files on one file system? (decided at the
+        # first rename or link that crosses between them) ... is debug logging enabled? (decided when the code asks)
+        self.xdevv = B("fs_separate_file_systems")
+        self.logv = B("env_debug_logging")
         self.statevars = self.bind + self.obj + self.ordv + [m for r in self.meta for m in r] + \
-            [self.dirv[d] for d in sorted(self.dirv)] + [self.linkv]
+            [self.dirv[d] for d in sorted(self.dirv)] + [self.linkv, self.xdevv, self.logv]
 
     def inv(self, allow_missing_obj=True):
         c = []
@@ -324,6 +364,8 @@ class World:
         F = symfs.FS(b, blksize=self.blksize)
         F.env = dict(self.F0.env)
         F.hardlinks = lambda: ps.decide(self.linkv)
+        F.crossfs = lambda: ps.decide(self.xdevv)
+        F.logdebug = lambda: ps.decide(self.logv)
         self.initial = dict(b.files)
         self.initial_dirs = dict(b.dirs)
         self.F = F
@@ -387,6 +429,7 @@ class World:
                 os.makedirs(self.scratch + d, exist_ok=True)
         self.history = hist
         self.nb = symfs.RealBackend(self.scratch)
+        self._native_environment(ps)
         if self.mp:
             os.environ["USE_MULTIPROCESSING"] = "True"
         try:
@@ -395,6 +438,40 @@ class World:
             os.environ.pop("USE_MULTIPROCESSING", None)
         self.F = None
         return None
+
+    def _native_environment(self, ps):
+        """the environment variables of the model, imposed on the real process for the call under test (replays run in
+        a forked child, so nothing has to be undone): a file system without hard links, sub-trees on separate file
+        systems (rename / link across them: EXDEV), debug logging enabled"""
+        import errno
+        import logging
+        root = self.root()
+
+        def area(p):
+            p = os.path.abspath(os.fspath(p))
+            if p.startswith(root + "/"):
+                return root + "/" + p[len(root) + 1:].split("/")[0]
+            return "outside:" + (p[len(self.scratch) + 1:].split("/")[0] if p.startswith(self.scratch + "/") else "/")
+        nolink = not ps.decide(self.linkv)
+        xdev = ps.decide(self.xdevv)
+        if nolink or xdev:
+            real = dict(rename=os.rename, replace=os.replace, link=os.link)
+
+            def guard(name):
+                def f(src, dst, *a, **k):
+                    if name == "link" and nolink:
+                        raise PermissionError(errno.EPERM, "Operation not permitted (no hard links: imposed)", src)
+                    if xdev and area(src) != area(dst):
+                        raise OSError(errno.EXDEV, "Invalid cross-device link (imposed)", src)
+                    return real[name](src, dst, *a, **k)
+                return f
+            for n in real:
+                setattr(os, n, guard(n))
+        if ps.decide(self.logv):
+            logging.disable(logging.NOTSET)
+            rootlog = logging.getLogger()
+            rootlog.handlers[:] = [logging.NullHandler()]
+            rootlog.setLevel(logging.DEBUG)
 
     def native_escapes(self):
         """native mode: files created outside the store root, or inside it at a location that is not hash-derived"""
@@ -420,6 +497,7 @@ class World:
         F.env = dict(self.F0.env)
         self.shim.fs = F
         rb.mkdir1("/src")
+        rb.mkdir1("/tmp")
         for k, c in enumerate(self.contents):
             rb.create("/src/c%d" % k, c)
         for v, d in enumerate(self.docs):
@@ -453,6 +531,8 @@ class World:
         F2 = symfs.FS(rb, blksize=self.blksize)     # fresh counters for the call under test
         F2.env = dict(self.F0.env)
         F2.hardlinks = lambda: ps.decide(self.linkv)
+        F2.crossfs = lambda: ps.decide(self.xdevv)
+        F2.logdebug = lambda: ps.decide(self.logv)
         self.shim.fs = F2
         self.F = F2
         self.initial = {}
